@@ -44,6 +44,24 @@ enum Suit {
     Spades,
 }
 
+/// a unit-only enum with a skipped variant in the middle: serde's variant index runs ahead of the symbol index
+#[derive(Serialize, Deserialize, AvroSchema, Debug, Clone)]
+enum Card {
+    Spades,
+    #[serde(skip)]
+    Joker,
+    Hearts,
+    Diamonds,
+    Clubs,
+}
+
+#[derive(Serialize, Deserialize, AvroSchema, Debug, Clone)]
+struct Hand {
+    first: Card,
+    rest: Vec<Card>,
+    maybe: Option<Card>,
+}
+
 #[derive(Serialize, Deserialize, AvroSchema, Debug, Clone)]
 struct Inner {
     x: i32,
@@ -170,6 +188,23 @@ fn vec_of<T>(rng: &mut Rng, max: usize, mut f: impl FnMut(&mut Rng) -> T) -> Vec
 impl Gen for Inner {
     fn make(rng: &mut Rng) -> Self {
         Inner { x: crate::genr::gen_int(rng), y: if rng.chance(1, 2) { Some(small_string(rng)) } else { None } }
+    }
+}
+
+impl Gen for Card {
+    fn make(rng: &mut Rng) -> Self {
+        match rng.below(4) {
+            0 => Card::Spades,
+            1 => Card::Hearts,
+            2 => Card::Diamonds,
+            _ => Card::Clubs,
+        }
+    }
+}
+
+impl Gen for Hand {
+    fn make(rng: &mut Rng) -> Self {
+        Hand { first: Card::make(rng), rest: vec_of(rng, 5, Card::make), maybe: if rng.chance(1, 2) { Some(Card::make(rng)) } else { None } }
     }
 }
 
@@ -454,6 +489,7 @@ pub fn run(args: &[String]) -> i32 {
     one_type::<Collections>(&mut out, &mut rng, n, "Collections", true, true, Collections::get_schema);
     one_type::<Shapes>(&mut out, &mut rng, n, "Shapes", true, false, Shapes::get_schema);
     one_type::<Empties>(&mut out, &mut rng, n, "Empties", true, false, Empties::get_schema);
+    one_type::<Hand>(&mut out, &mut rng, n, "Hand", true, true, Hand::get_schema);
     one_type::<Tups>(&mut out, &mut rng, n, "Tups", true, false, || Schema::parse_str(TUPS_SCHEMA).unwrap());
     one_type::<Skippy>(&mut out, &mut rng, n, "Skippy", true, true, Skippy::get_schema);
     one_type::<Beyond>(&mut out, &mut rng, n, "Beyond", false, false, Beyond::get_schema);
